@@ -737,11 +737,28 @@ auto with_sig(SigObj& g, Fn fn)
 static thread_local std::vector<void*> g_dying_ups; // (SigV* or SigI*, tagged by the low bit of the vector below)
 static thread_local std::vector<bool> g_dying_void;
 void query_all_signals(); // (defined after Interp)
+void check_dying_lists();  // (defined after Interp)
+// slot lists whose last handle is being destroyed or reassigned right now (identity of the signal_impl)
+static thread_local std::vector<const void*> g_lists_dying;
+// the slot list of a signal object if this object is its only owner (no other handle, no emission in progress)
+inline const void* sole_list(SigObj* g)
+{
+  return with_sig(*g, [](auto& s) -> const void* {
+    if (s.size() == 0)
+      return nullptr; // (impl() would create a list for a never-connected signal)
+    sigc::signal_base& sb = s;
+    auto impl = (sb.*SigAccess::get_impl())();
+    return impl.use_count() == 2 ? static_cast<const void*>(impl.get()) : nullptr;
+  });
+}
 inline void emit_dying_ups()
 {
   // and the other half of the "last will": the destructor looks at every signal object of the program (size(), empty(),
   // blocked() — results ignored): whatever the library is in the middle of, its slot lists must be walkable
   query_all_signals();
+  // third part: while the last handle of a slot list is being destroyed or reassigned, every connection into that list
+  // reports disconnected before the first functor dies ("at which moment every slot is disconnected")
+  check_dying_lists();
   for (std::size_t i = 0; i < g_dying_ups.size(); ++i)
   {
     if (g_dying_void[i])
@@ -778,6 +795,18 @@ inline void attach_up(SigObj* g)
 // destroys the signal object of `g` (not the SigObj record) with its upstream signal announced as dying
 inline void destroy_signal_object(SigObj* g)
 {
+  const void* lp = sole_list(g);
+  if (lp)
+    g_lists_dying.push_back(lp);
+  struct PopDying
+  {
+    bool on;
+    ~PopDying()
+    {
+      if (on)
+        g_lists_dying.pop_back();
+    }
+  } pop_dying{lp != nullptr};
   g->dying = true;
   if (g->up)
   {
@@ -810,6 +839,7 @@ struct Interp
   std::map<int, std::vector<std::string>> bodies;
   // connection name -> the connection object co-owned by the "connect-once" functor living in that very slot
   std::map<int, std::weak_ptr<sigc::connection>> selfOf;
+  std::map<int, const void*> connList; // connection name -> identity of the slot list it was obtained from
   std::map<int, long> live; // live F copies per fid
   int depth = 0;
   int maxdepth = 6;
@@ -1195,11 +1225,21 @@ struct Interp
   void set_conn(int k, const sigc::connection& c)
   {
     selfOf.erase(k); // the name refers to another slot from now on
+    connList.erase(k);
     auto old = get(C, k);
     if (old)
       *old = c;
     else
       C[k] = new sigc::connection(c);
+  }
+
+  // remember which slot list connection Ck was obtained from (after a successful connect to signal object g)
+  void note_list(int k, SigObj* g)
+  {
+    connList[k] = with_sig(*g, [](auto& s) -> const void* {
+      sigc::signal_base& sb = s;
+      return (sb.*SigAccess::get_impl())().get();
+    });
   }
 
   // ---- one operation ---------------------------------------------------------------------
@@ -1530,6 +1570,24 @@ struct Interp
       if (op == "masgG" && !fl_acc(dst->fl) && (src->owned || dst->owned))
         return "owned";
       bool cp = (op == "asgG");
+      // (if dst is the last handle of its list, the list dies in this assignment: see check_dying_lists)
+      const void* lp = (dst != src) ? sole_list(dst) : nullptr;
+      if (lp && with_sig(*src, [lp](auto& sg) {
+            sigc::signal_base& sb = sg;
+            return sg.size() > 0 && static_cast<const void*>((sb.*SigAccess::get_impl())().get()) == lp;
+          }))
+        lp = nullptr;
+      if (lp)
+        g_lists_dying.push_back(lp);
+      struct PopDying
+      {
+        bool on;
+        ~PopDying()
+        {
+          if (on)
+            g_lists_dying.pop_back();
+        }
+      } pop_dying{lp != nullptr};
       with_sig(*dst, [cp, src](auto& d) {
         using Ty = std::remove_reference_t<decltype(d)>;
         Ty& s = *static_cast<Ty*>(src->p);
@@ -1590,6 +1648,7 @@ struct Interp
         return first ? sig.connect_first(sl) : sig.connect(sl);
       });
       set_conn(k, c);
+      note_list(k, g);
       return "ok";
     }
     if ((op == "connfn" || op == "connffn") && N(3))
@@ -1671,6 +1730,7 @@ struct Interp
           }
         }
         set_conn(k, c);
+        note_list(k, g);
         return "ok";
       }
       std::shared_ptr<sigc::connection> selfc; // set for the connect-once variant (plain functors with fid % 3 == 0)
@@ -1715,6 +1775,7 @@ struct Interp
       if (selfc)
         *selfc = c; // the functor now co-owns a handle to its own slot
       set_conn(k, c);
+      note_list(k, g);
       if (selfc)
         selfOf[k] = selfc;
       return "ok";
@@ -1857,6 +1918,8 @@ struct Interp
       if (get(C, j))
         return "exists";
       C[j] = new sigc::connection(*src);
+      if (connList.count(idx(w[2])))
+        connList[j] = connList[idx(w[2])];
       return "ok";
     }
     if (op == "asgC" && N(2))
@@ -1868,6 +1931,10 @@ struct Interp
       if (dst != src)
         selfOf.erase(idx(w[1]));
       *dst = *src;
+      if (connList.count(idx(w[2])))
+        connList[idx(w[1])] = connList[idx(w[2])];
+      else
+        connList.erase(idx(w[1]));
       return "ok";
     }
     if (op == "delC" && N(1))
@@ -1877,6 +1944,7 @@ struct Interp
       if (!c)
         return "dead";
       selfOf.erase(i);
+      connList.erase(i);
       C.erase(i);
       delete c;
       return "ok";
@@ -2317,6 +2385,28 @@ std::vector<std::vector<std::string>> read_programs(std::istream& in)
   if (progs.back().empty() && progs.size() > 1)
     progs.pop_back();
   return progs;
+}
+
+void check_dying_lists()
+{
+  Interp* in = g_interp;
+  if (!in || g_lists_dying.empty())
+    return;
+  for (auto& kv : in->connList)
+  {
+    bool dying = false;
+    for (const void* lp : g_lists_dying)
+      dying = dying || lp == kv.second;
+    if (!dying)
+      continue;
+    auto it = in->C.find(kv.first);
+    if (it != in->C.end() && it->second && it->second->connected())
+    {
+      std::fprintf(stderr, "harness: the last handle of a slot list is going away, a functor of the list is already being "
+                           "destroyed, and connection C%d into that list still reports connected()\n", kv.first);
+      std::abort();
+    }
+  }
 }
 
 void query_all_signals()
